@@ -149,7 +149,7 @@ class Check:
             os.makedirs(EVIDENCE_DIR, exist_ok=True)
             json.dump(ev, open(os.path.join(EVIDENCE_DIR, "%s.json" % self.pid), "w"), indent=1)
         if not real and self.floor_failures:
-            raise AnalysisBroken("; ".join(self.floor_failures))
+            raise AnalysisBroken("; ".join(dict.fromkeys(self.floor_failures)))
         print("%s [%s]: %d obligations, %d discharged, %d violated (%d known), %d distinct non-trivial, %.1fs"
               % (self.pid, self.tier, len(self.obs), len(discharged), len(real), len(known_hits), len(nontriv),
                  time.time() - self.t0))
